@@ -6,7 +6,7 @@ pub fn run(run: &mut Run) {
     crate::umh::install();
     crate::props::c02::common_assumptions(run);
     crate::props::c02::known_findings(run);
-    let n = run.cases(16_000, 800_000);
+    let n = run.cases(48_000, 1_500_000);
     let max_ops = if run.tier == crate::engine::Tier::Quick { 32 } else { 96 };
     run.sub(
         "cleanup",
